@@ -553,6 +553,38 @@ def twin_ast(rng, a):
 _LAST_AST = [None]
 
 
+def gen_cross_depth(rng, classes=None):
+    """a sub-proposition shared by nodes at DIFFERENT depths: B directly below the top and again one or two levels further
+    down (below a sibling rule, or below a rule below a sibling rule) — an ordinary rule list that mentions one named
+    group in a condition and on its own"""
+    ok = (lambda c: classes is None or c in classes)
+    names = rng.sample("abcdefg", 6)
+    lf = lambda n: {"c": "str", "id": n}
+    B = {"c": rng.choice([c for c in ["Any", "All", "Xor", "AtMost", "AtLeast"] if ok(c)] or ["Any"]),
+         "args": [lf(x) for x in names[:rng.randint(1, 3)]], "$k": "B"}
+    if B["c"] in ("AtMost", "AtLeast"): B["v"] = rng.randint(1, len(B["args"]))
+    if rng.random() < 0.6: B["id"] = rng.choice(["B", "N1", "b1", "Ω"])
+    def wrap(x, k):
+        c = rng.choice([c for c in ["Imply", "Imply", "Any", "All", "Not", "AtLeast", "Xor"] if ok(c)] or ["Any"])
+        other = lf(rng.choice(names[3:]))
+        node = {"$k": "W%d" % k}
+        if c == "Not": node.update(c="Not", arg=x)
+        elif c == "Imply":
+            node.update(c="Imply", cond=other, cons=x) if rng.random() < 0.5 else node.update(c="Imply", cond=x, cons=other)
+        elif c == "AtLeast": node.update(c="AtLeast", v=rng.randint(1, 2), args=[x, other])
+        else: node.update(c=c, args=[x, other])
+        if c != "Not" and rng.random() < 0.5: node["id"] = "W%d" % k
+        return node
+    deep = wrap(B, 1)
+    if rng.random() < 0.5: deep = wrap(deep, 2)
+    args = [B, deep] + ([lf(names[5])] if rng.random() < 0.4 else [])
+    rng.shuffle(args)
+    top = {"c": rng.choice([c for c in ["All", "All", "Any", "AtLeast"] if ok(c)] or ["All"]), "args": args, "$k": "T"}
+    if top["c"] == "AtLeast": top["v"] = rng.randint(1, len(args))
+    if rng.random() < 0.5: top["id"] = "A"
+    return top
+
+
 def gen_valid(rng, quick=True, twins=True, **kw):
     """a validated, reference-free, single-definition model: (ast, fresh real object, snapshot).
     With probability 0.3 the model is a hash-colliding twin (`twin_ast`) of the model generated just before it, so
@@ -568,6 +600,16 @@ def gen_valid(rng, quick=True, twins=True, **kw):
                 t = snap(o)
                 if not is_var(o) and well_formed(t) and not o.errors():
                     return b, o, t
+            except Exception:
+                pass
+    if rng.random() < 0.08:
+        for _ in range(5):
+            a = gen_cross_depth(rng, kw.get("classes"))
+            try:
+                o = build(a)
+                t = snap(o)
+                if not is_var(o) and well_formed(t) and not o.errors():
+                    return a, o, t
             except Exception:
                 pass
     for _ in range(200):
